@@ -6,4 +6,4 @@ import (
 	"vh/transports"
 )
 
-func main() { Main(map[string]func(Val) Val{"C01_lts": lts.Run, "C01_transports": transports.Run}) }
+func main() { Main(map[string]func(Val) Val{"C01_lts": lts.Run, "C01_transports": transports.Run, "C01_pool": transports.RunPool}) }
